@@ -10,6 +10,8 @@ from torch import nn
 import torchsde
 from torchsde import BrownianInterval
 
+from . import core
+
 warnings.filterwarnings('ignore')
 
 NOISE = ['diagonal', 'additive', 'scalar', 'general']
@@ -174,6 +176,13 @@ def c12_search(rng, n):
         p, sde, y0 = make_problem(rng)
         dt = rng.choice([0.125, 0.25, 0.1, 0.05, 0.3])
         ts, kind = random_ts(rng, dt)
+        if rng.random() < 0.2:
+            # far from the origin: the step is tiny relative to |t| (any "close to the output time" shortcut that scales
+            # with |t| instead of dt shows up here); outputs strictly inside steps
+            kind = 'far'
+            t0 = rng.choice([1000.0, 50.0, -300.0, 4096.0])
+            dt = abs(t0) * rng.choice([1e-5, 4e-6, 2e-5])
+            ts = sorted({t0} | {t0 + dt * (rng.randrange(0, 8) + rng.choice([0.1, 0.37, 0.5, 0.81, 0.97])) for _ in range(3)})
         p.update(dt=dt, ts=ts, kind=kind)
         try:
             with torch.no_grad():
@@ -206,7 +215,7 @@ def c12_search(rng, n):
                         k = next(j for j in range(1, len(grid)) if grid[j] >= t)
                         w = (t - grid[k - 1]) / (grid[k] - grid[k - 1])
                         exp = yg[k - 1] + w * (yg[k] - yg[k - 1])
-                        if float((ys[i] - exp).abs().max()) > 1e-10:
+                        if float((ys[i] - exp).abs().max()) > 1e-10 + 1e-9 * float((yg[k] - yg[k - 1]).abs().max()):
                             bad = f'output at t={t} is not the interpolant of the grid states at {grid[k - 1]}, {grid[k]}'
                             break
                 # invariance: other output times, same ends
@@ -311,8 +320,9 @@ def c14_search(rng, n):
         try:
             with torch.no_grad():
                 bm = RecordingBM(make_bm(p, ts[0], ts[-1]))
-                ys = torchsde.sdeint(sde, y0, ts, bm=bm, method=p['method'], dt=dt, adaptive=True, rtol=tol, atol=tol,
-                                     dt_min=dt_min)
+                with core.time_limit(60):
+                    ys = torchsde.sdeint(sde, y0, ts, bm=bm, method=p['method'], dt=dt, adaptive=True, rtol=tol, atol=tol,
+                                         dt_min=dt_min)
             log = bm.log
             if len(log) % 3 != 0 or len(log) // 3 != len(errs):
                 bad = f'{len(log)} queries for {len(errs)} error estimates'
@@ -357,6 +367,10 @@ def c14_search(rng, n):
                     bad = f'accepted steps end at {cur}, not at ts[-1]={end}'
                 if bad is None and not torch.equal(ys[0], y0):
                     bad = 'ys[0] != y0'
+        except core.TimeLimitExceeded:
+            lg = bm.log
+            bad = (f'integration did not terminate within 60 s: {len(lg) // 3} trials so far, the last ones '
+                   f'{[lg[i] for i in range(max(0, len(lg) - 9), len(lg), 3)]} (the unchanged library needs < 1 s)')
         except Exception as e:  # noqa
             bad = f'{type(e).__name__}: {e}'
         finally:
